@@ -72,8 +72,35 @@ struct St {
 fn run(case: &Case, out: &mut Out) {
     let mut st_: Option<St> = None;
     let mut bad: Vec<Vec<u8>> = vec![];
+    let mut prev: &str = "";
     for op in &case.ops {
         let a = &op.args;
+        // A declared length above the ceiling at the head of the read buffer: nothing can be delivered any more.
+        // The read attempt that meets it must flag the channel as failed, which is what makes the command server
+        // close the session (real bin/src/command/sessions.rs wants_to_tick + the is_error() test of
+        // ClientSession / WorkerSession::ready).  The attempt is made here (it changes nothing the model tracks:
+        // theorem oversize_prefix_is_error) because the owner loops stop at the first error of a turn.
+        if matches!(prev, "read" | "turn" | "extract" | "drain_check" | "drain_check_x") {
+            if let Some(s) = st_.as_mut() {
+                let d = s.chan.front_buf.data();
+                if d.len() >= 8 {
+                    let declared = u64::from_le_bytes(d[..8].try_into().unwrap());
+                    if declared > s.max as u64 {
+                        let before = st(&s.chan);
+                        let r = s.chan.read_message();
+                        let flagged = s.chan.readiness.is_error() && sozu::command::sessions::wants_to_tick(&s.chan);
+                        if !matches!(r, Err(ChannelError::MessageTooLarge { .. })) || st(&s.chan) != before {
+                            out.viol("oversize-not-clean", &format!(
+                                "a declared length of {declared} bytes (max {}) was answered {:?} or changed the buffers", s.max, r.map(|_| ())));
+                        } else if !flagged {
+                            out.viol("oversize-wedge", &format!(
+                                "a read met a declared length of {declared} bytes (max {}) and the channel is not flagged as failed: the session owning it is never closed and nothing is ever delivered again", s.max));
+                        }
+                    }
+                }
+            }
+        }
+        prev = op.name.as_str();
         match op.name.as_str() {
             "new" => {
                 let (x, y) = UnixStream::pair().unwrap();
@@ -333,6 +360,18 @@ fn run(case: &Case, out: &mut Out) {
                 if !later {
                     out.viol("oversize-answer-wedges-worker", &format!(
                         "after an answer larger than the {max}-byte ceiling the worker answered no further request on its command channel"));
+                }
+            }
+            // black-box: the main process's stream carries a declared length above the ceiling, then a valid request.
+            // Clean outcomes: the worker answers the request, or gives its command channel up (the main process reads
+            // EOF). Observed: "answered" | "closed" | "silent".
+            "bb_oversize_prefix" => {
+                let (init, max) = (a[0].n() as u64, a[1].n() as u64);
+                let r = bb_oversize_prefix(init, max, out);
+                out.obs(&[]); // the outcome is judged by the oracle below, not compared with the model
+                if r == "silent" {
+                    out.viol("oversize-worker-loop", &format!(
+                        "a worker whose command channel received a declared length above the {max}-byte ceiling neither answers the requests behind it nor closes the channel: lib/src/server.rs read_channel_messages_and_notify reports the same error on every wake-up"));
                 }
             }
             // Channel::into (the worker re-types its channel after the blocking handshake, bin/src/worker.rs):
@@ -608,6 +647,49 @@ fn bb_oversize(init: u64, max: u64, out: &mut Out) -> (String, bool) {
         }
     }
     (big, later)
+}
+
+fn bb_oversize_prefix(init: u64, max: u64, out: &mut Out) -> String {
+    use sozu_command_lib::config::ListenerBuilder;
+    use sozu_command_lib::proto::command::{request::RequestType, SocketAddress, Status, WorkerRequest};
+    use std::time::Duration;
+    let port = verif_harness::claim_port();
+    let http_listener = ListenerBuilder::new_http(SocketAddress::new_v4(127, 0, 0, 1, port)).to_http(None).expect("listener");
+    let (mut command, proxy): (Channel<WorkerRequest, WorkerResponse>, Channel<WorkerResponse, WorkerRequest>) =
+        Channel::generate(init, max).expect("channel pair");
+    std::thread::spawn(move || {
+        let _ = sozu_lib::http::testing::start_http_worker(http_listener, proxy, 10, 16_384);
+    });
+    let small = |id: &str| WorkerRequest { id: id.to_owned(), content: RequestType::Status(Status {}).into() };
+    let _ = command.write_message(&small("SMALL-1"));
+    match command.read_message_blocking_timeout(Some(Duration::from_secs(8))) {
+        Ok(r) if r.id == "SMALL-1" => {}
+        _ => {
+            out.note("invalid-case: the worker did not answer the warm-up request");
+            return "silent".into();
+        }
+    }
+    // raw bytes on the channel's socket: a length prefix above the ceiling and a few bytes of "payload"
+    let mut raw = (max + 1000).to_le_bytes().to_vec();
+    raw.extend_from_slice(b"zzzz");
+    let fd = command.fd();
+    let n = unsafe { libc::write(fd, raw.as_ptr() as *const libc::c_void, raw.len()) };
+    if n != raw.len() as isize {
+        out.note("invalid-case: could not write the raw prefix");
+        return "silent".into();
+    }
+    std::thread::sleep(Duration::from_millis(100));
+    let _ = command.write_message(&small("SMALL-2"));
+    let t0 = std::time::Instant::now();
+    while t0.elapsed() < Duration::from_millis(2500) {
+        match command.read_message_blocking_timeout(Some(Duration::from_millis(500))) {
+            Ok(r) if r.id == "SMALL-2" => return "answered".into(),
+            Ok(_) => {}
+            Err(ChannelError::TimeoutReached(_)) | Err(ChannelError::NothingRead) => {}
+            Err(_) => return "closed".into(),
+        }
+    }
+    "silent".into()
 }
 
 fn a_init(case: &Case) -> usize {
